@@ -549,16 +549,15 @@ def check_span_judgement_width(fx, rep, rule):
         span = tv[1]
         n += 1
         compared = False
-        for cond, holds in T.path_conditions(ps, c):
-            ct = T.term(cond, T.env_at(ps, cond, mutated) if False else env, mutated)
-            for st in T.subterms(ct):
-                if st[0] == "bin" and st[1] == "Eq" and holds:
-                    for side in (st[2], st[3]):
-                        x = side
-                        while isinstance(x, tuple) and x[0] in ("ref", "deref") and len(x) > 1:
-                            x = x[1]
-                        if isinstance(x, tuple) and x[0] == "field" and x[2] == "size" and x[1] == span:
-                            compared = True
+        conds = [(T.term(cond, env, mutated), holds) for cond, holds in T.path_conditions(ps, c)]
+        for st in T.entailed_atoms(conds):
+            if isinstance(st, tuple) and st[0] == "bin" and st[1] == "Eq":
+                for side in (st[2], st[3]):
+                    x = side
+                    while isinstance(x, tuple) and x[0] in ("ref", "deref") and len(x) > 1:
+                        x = x[1]
+                    if isinstance(x, tuple) and x[0] == "field" and x[2] == "size" and x[1] == span:
+                        compared = True
         rep.oblige(compared, rule, f"span-judgement-width#{n}", F.loc(c["span"]), "merge judges an operand onto the variable of a span without comparing the span's size with it on the way: a word wider than the span becomes the type of that span (and of every span its variable is equated with), so an entry can describe bits beyond its span and beyond the slot", sample={"rule": rule, "judged": T.short(tv)[:60], "size_compared": compared})
     rep.floor(rule, n, 1, "operands judged onto a span's variable in merge")
 
